@@ -144,14 +144,247 @@ def render(d):
     return '\n'.join(out)
 
 
-def write(repo, coq_dir):
-    d = read(repo)
-    txt = render(d)
-    p = os.path.join(coq_dir, 'theories', 'Gen', 'C18Consts.v')
+# ---------------------------------------------------------------- lock acquisition order (Gen/C18Locks.v)
+
+def blank_literals(src):
+    """Rust source with comments, string literals and char literals replaced by blanks of the same length
+    (they may contain braces, `?`, `//`, `lock(`).  A small lexer: comments and strings are recognised together."""
+    out = []
+    i = 0
+    n = len(src)
+    while i < n:
+        c = src[i]
+        if src.startswith('//', i):
+            j = src.find('\n', i)
+            j = n if j < 0 else j
+            out.append(' ' * (j - i))
+            i = j
+        elif src.startswith('/*', i):
+            depth = 1
+            j = i + 2
+            while j < n and depth:
+                if src.startswith('/*', j):
+                    depth += 1
+                    j += 2
+                elif src.startswith('*/', j):
+                    depth -= 1
+                    j += 2
+                else:
+                    j += 1
+            out.append(re.sub(r'[^\n]', ' ', src[i:j]))
+            i = j
+        elif c == '"' or (c == 'r' and re.match(r'r#*"', src[i:]) and not (i and (src[i - 1].isalnum() or src[i - 1] == '_'))):
+            if c == '"':
+                j = i + 1
+                while j < n and src[j] != '"':
+                    j += 2 if src[j] == '\\' else 1
+                j += 1
+            else:
+                m = re.match(r'r(#*)"', src[i:])
+                end = src.find('"' + m.group(1), i + len(m.group(0)))
+                if end < 0:
+                    raise Unrecognised('unterminated raw string')
+                j = end + 1 + len(m.group(1))
+            out.append('"' + re.sub(r'[^\n]', ' ', src[i + 1:j - 1]) + '"')
+            i = j
+        elif c == "'":
+            m = re.match(r"'(?:\\(?:x[0-9a-fA-F]{2}|u\{[0-9a-fA-F]+\}|.)|[^\\'])'", src[i:])
+            if m:
+                out.append("'" + ' ' * (len(m.group(0)) - 2) + "'")
+                i += len(m.group(0))
+            else:       # a lifetime
+                out.append(c)
+                i += 1
+        else:
+            out.append(c)
+            i += 1
+    return ''.join(out)
+
+
+_LET_LOCK = re.compile(r'let\s+(?:mut\s+)?(\w+)\s*=\s*self\s*\.\s*(\w+)\s*\.\s*lock\s*\(\s*\)\s*\.\s*unwrap\s*\(\s*\)\s*;')
+_ANY_LOCK = re.compile(r'\.\s*(?:try_)?lock\s*\(')
+_OUTGOING = re.compile(r'requester\s*\.\s*(\w+)\s*\(')
+_DROP = re.compile(r'drop\s*\(\s*(\w+)\s*\)')
+_SELF_CALL = re.compile(r'self\s*\.\s*(\w+)\s*\(')
+_EXIT = re.compile(r'return\b|bail!|\?')
+
+
+def lock_events(body, lock_ids, fname, helper_bodies, handler_names):
+    """Linearised mutex events of one handler body (a brace block).
+
+    Accepted shape: every acquisition is `let [mut] g = self.<mutex>.lock().unwrap();` at statement level, so the
+    guard lives exactly to the end of the enclosing block (or to an explicit `drop(g)`).  Because guards are block
+    scoped, the set of locks held at any point is the same on every control-flow path that reaches it; the textual
+    linearisation (each block entered once, its guards released at its end) therefore shows, for every acquisition
+    and every outgoing call, exactly the locks that are held there.  Closures are taken to run where they are
+    written.  Returns (main_path, [exit paths]): the whole body, and for every `return` / `?` / `bail!` the events
+    up to it followed by the release of everything then held."""
+    events = []
+    exits = []
+    stack = []      # per open block: [start_index, [(guard, lock id), ...]]
+    i = 0
+    n = len(body)
+
+    def live():
+        return [g for blk in stack for g in blk[1]]
+
+    while i < n:
+        c = body[i]
+        boundary = i == 0 or not (body[i - 1].isalnum() or body[i - 1] == '_')
+        if c == '{':
+            stack.append([i, []])
+            i += 1
+            continue
+        if c == '}':
+            if not stack:
+                raise Unrecognised('%s: unbalanced braces' % fname)
+            start, guards = stack.pop()
+            tail = body[start:i].rstrip()
+            for g, _ in guards:
+                if re.search(r'[;{}]\s*' + re.escape(g) + r'$', tail):
+                    raise Unrecognised('%s: lock guard `%s` is moved out of its block' % (fname, g))
+            for g, lid in reversed(guards):
+                events.append(('Rel', lid))
+            i += 1
+            continue
+        m = _LET_LOCK.match(body, i) if boundary else None
+        if m:
+            if m.group(2) not in lock_ids:
+                raise Unrecognised('%s: `self.%s` is not a Mutex field of Scheduler' % (fname, m.group(2)))
+            if not stack:
+                raise Unrecognised('%s: acquisition outside a block' % fname)
+            stack[-1][1].append((m.group(1), lock_ids[m.group(2)]))
+            events.append(('Acq', lock_ids[m.group(2)]))
+            i = m.end()
+            continue
+        if _ANY_LOCK.match(body, i):
+            raise Unrecognised('%s: a lock is taken in a form other than `let g = self.<mutex>.lock().unwrap();`: %s'
+                               % (fname, norm(body[max(0, i - 60):i + 30])))
+        m = _OUTGOING.match(body, i) if boundary else None
+        if m:
+            events.append(('Block',))
+            i = m.end()
+            continue
+        m = _DROP.match(body, i) if boundary else None
+        if m:
+            for blk in stack:
+                for k, (g, lid) in enumerate(blk[1]):
+                    if g == m.group(1):
+                        events.append(('Rel', lid))
+                        del blk[1][k]
+                        break
+            i = m.end()
+            continue
+        m = _SELF_CALL.match(body, i) if boundary else None
+        if m and m.group(1) not in lock_ids:
+            callee = m.group(1)
+            if callee in handler_names:
+                raise Unrecognised('%s calls the handler %s: re-entrant handlers are not understood' % (fname, callee))
+            if callee in helper_bodies and _ANY_LOCK.search(helper_bodies[callee]):
+                raise Unrecognised('%s calls self.%s, which takes a lock itself' % (fname, callee))
+        m = _EXIT.match(body, i) if (boundary or c == '?') else None
+        if m:
+            held = live()
+            for g, _ in held:
+                if re.match(r'return\s+' + re.escape(g) + r'\s*[;}]', body[i:]):
+                    raise Unrecognised('%s: lock guard `%s` is returned' % (fname, g))
+            exits.append(list(events) + [('Rel', lid) for _, lid in reversed(held)])
+            i = m.end()
+            continue
+        i += 1
+    if stack:
+        raise Unrecognised('%s: unbalanced braces' % fname)
+    uniq = []
+    for e in exits:
+        if e not in uniq and e != events:
+            uniq.append(e)
+    return events, uniq
+
+
+def read_locks(repo):
+    src = open(os.path.join(repo, 'src/bin/sccache-dist/main.rs'), encoding='utf-8').read()
+    main = blank_literals(src)
+    m = re.search(r'pub\s+struct\s+Scheduler\s*\{([^}]*)\}', main)
+    if not m:
+        raise Unrecognised('struct Scheduler not found')
+    fields = re.findall(r'(\w+)\s*:\s*Mutex\s*<', m.group(1))
+    if len(fields) < 2:
+        raise Unrecognised('struct Scheduler has fewer than two Mutex fields: %r' % fields)
+    # the rule written above the struct: "do all locking at once ..., in alphabetical order"
+    lock_ids = {f: k for k, f in enumerate(sorted(fields))}
+    m = re.search(r'impl\s+SchedulerIncoming\s+for\s+Scheduler\b', main)
+    if not m:
+        raise Unrecognised('impl SchedulerIncoming for Scheduler not found')
+    impl = block_after(main, m.end())
+    helpers = {}
+    for mi in re.finditer(r'impl\s+Scheduler\s*\{', main):
+        blk = block_after(main, mi.start())
+        for mf in re.finditer(r'\bfn\s+(\w+)\b', blk):
+            helpers[mf.group(1)] = block_after(blk, mf.end())
+    handlers = {}
+    depth = 0
+    for mf in re.finditer(r'[{}]|\bfn\s+(\w+)\b', impl):
+        if mf.group(0) == '{':
+            depth += 1
+        elif mf.group(0) == '}':
+            depth -= 1
+        elif depth == 1:
+            handlers[mf.group(1)] = block_after(impl, mf.end())
+    if not handlers or not all(h.startswith('handle_') for h in handlers):
+        raise Unrecognised('unexpected methods in impl SchedulerIncoming for Scheduler: %r' % sorted(handlers))
+    out = {}
+    for name in sorted(handlers):
+        out[name] = lock_events(handlers[name], lock_ids, name, helpers, set(handlers))
+    return dict(lock_ids=lock_ids, handlers=out)
+
+
+def _ev(e):
+    return 'Block' if e[0] == 'Block' else '%s %d' % e
+
+
+def render_locks(d):
+    ids = d['lock_ids']
+    out = ['(* GENERATED by translator/c18_consts.py from src/bin/sccache-dist/main.rs — do not edit.',
+           '   The mutex events of every SchedulerIncoming handler of Scheduler, in the order the source performs them',
+           '   (guards are block scoped; Block = a call through `requester`, i.e. do_assign_job). *)',
+           'From Coq Require Import List NArith String.', 'From Sccache Require Import Model.LockOrder.',
+           'Import ListNotations.', 'Local Open Scope N_scope.', '',
+           '(* the Mutex fields of struct Scheduler, numbered in alphabetical order (the locking rule of main.rs) *)',
+           'Definition lock_names : list (string * N) :=',
+           '  [' + '; '.join('("%s"%%string, %d)' % (f, k) for f, k in sorted(ids.items(), key=lambda x: x[1])) + '].', '',
+           '(* one entry per handler: the whole body *)',
+           'Definition handler_main_paths : list (string * list lev) :=', '  [']
+    mains = []
+    exits = []
+    for name, (main, ex) in d['handlers'].items():
+        mains.append('   ("%s"%%string, [%s])' % (name, '; '.join(_ev(e) for e in main)))
+        for e in ex:
+            exits.append('   ("%s"%%string, [%s])' % (name, '; '.join(_ev(x) for x in e)))
+    out.append(';\n'.join(mains))
+    out += ['  ].', '', '(* one entry per early exit (return / ? / bail!): the events up to it, then everything held is released *)',
+            'Definition handler_exit_paths : list (string * list lev) :=', '  [']
+    out.append(';\n'.join(exits))
+    out += ['  ].', '', 'Definition handler_paths : list (list lev) :=',
+            '  map snd handler_main_paths ++ map snd handler_exit_paths.', '']
+    return '\n'.join(out)
+
+
+def _write_if_changed(p, txt):
     os.makedirs(os.path.dirname(p), exist_ok=True)
     old = open(p).read() if os.path.exists(p) else None
     if old != txt:  # keep the timestamp when nothing changed, so make does not rebuild the proofs
         open(p, 'w').write(txt)
+
+
+def write(repo, coq_dir):
+    d = read(repo)
+    _write_if_changed(os.path.join(coq_dir, 'theories', 'Gen', 'C18Consts.v'), render(d))
+    return d
+
+
+def write_locks(repo, coq_dir):
+    d = read_locks(repo)
+    _write_if_changed(os.path.join(coq_dir, 'theories', 'Gen', 'C18Locks.v'), render_locks(d))
     return d
 
 
@@ -160,3 +393,4 @@ if __name__ == '__main__':
     repo = sys.argv[1] if len(sys.argv) > 1 else os.environ.get('VERIF_REPO', '/repo')
     here = os.path.dirname(os.path.dirname(os.path.abspath(__file__)))
     print(write(repo, os.path.join(here, 'coq')))
+    print(write_locks(repo, os.path.join(here, 'coq')))
